@@ -8,6 +8,9 @@ package c17
 import (
 	"encoding/json"
 	"fmt"
+	"github.com/openconfig/goyang/pkg/yangentry"
+	"os"
+	"path/filepath"
 	"sort"
 	"strings"
 
@@ -51,6 +54,9 @@ func nsModule(ms *yang.Modules, e *yang.Entry) (mod string) {
 	return m
 }
 
+// rootOverride: module name -> tree, when the trees walked are those returned by yangentry.Parse.
+var rootOverride map[string]*yang.Entry
+
 func collect(ms *yang.Modules) []*node {
 	var out []*node
 	done := map[*yang.Module]bool{}
@@ -66,6 +72,9 @@ func collect(ms *yang.Modules) []*node {
 		}
 		done[m] = true
 		root := yang.ToEntry(m)
+		if r := rootOverride[m.Name]; r != nil {
+			root = r // the trees as another entry point handed them out
+		}
 		var walk func(e *yang.Entry, steps []step, up []*yang.Entry)
 		walk = func(e *yang.Entry, steps []step, up []*yang.Entry) {
 			var ks []string
@@ -249,6 +258,46 @@ func describe(e *yang.Entry) string {
 	return "the node " + e.Path()
 }
 
+// viaYangentry: the same set read from files by yangentry.Parse, the lookups made from and judged
+// against the trees that call returns (sets with several revisions of one module are left out:
+// the call returns one tree per name).
+func viaYangentry(files []dump.File, count func(int)) *fail {
+	dir, err := os.MkdirTemp("..", "c17-")
+	if err != nil {
+		panic(err)
+	}
+	defer os.RemoveAll(dir)
+	dir, _ = filepath.Abs(dir)
+	var paths []string
+	for _, x := range files {
+		p := filepath.Join(dir, x.Name)
+		if err := os.WriteFile(p, []byte(x.Text), 0o644); err != nil {
+			panic(err)
+		}
+		paths = append(paths, p)
+	}
+	entries, errs := yangentry.Parse(paths, nil)
+	if len(errs) > 0 || len(entries) == 0 {
+		return nil
+	}
+	var ms *yang.Modules
+	for _, e := range entries {
+		ms = e.Modules()
+	}
+	for k := range ms.Modules {
+		if strings.Contains(k, "@") {
+			return nil
+		}
+	}
+	rootOverride = entries
+	defer func() { rootOverride = nil }()
+	if f := lookups(ms, count); f != nil {
+		f.fp += ":trees-from-yangentry.Parse"
+		return f
+	}
+	return nil
+}
+
 func check(files []dump.File, count func(int)) (f *fail, clean bool) {
 	pan, pt := core.Guard(func() {
 		ms := yang.NewModules()
@@ -262,6 +311,9 @@ func check(files []dump.File, count func(int)) (f *fail, clean bool) {
 		}
 		clean = true
 		f = lookups(ms, count)
+		if f == nil && len(files) > 1 {
+			f = viaYangentry(files, count)
+		}
 	})
 	if pan {
 		return &fail{"panic@" + core.LastPanicSite, "no panic", pt}, clean
